@@ -68,10 +68,21 @@ class SlotLoop:
     def atoms(self, node):
         """classify an atomic condition: returns role string or None"""
         e = strip(node.ast)
-        s = pr.norm_obj(pr.canon(e))
+        # reference / const locals that still name their initialiser at this node (checked on the CFG) are expanded
+        cache = self.__dict__.setdefault('_binds_at', {})
+        if node.id not in cache:
+            b = {}
+            try:
+                for (v, ini) in self.g.live_const_locals(node.id):
+                    b[v['id']] = pr.canon(ini, b)
+            except Exception:
+                b = {}
+            cache[node.id] = b
+        lb = cache[node.id]
+        s = pr.norm_obj(pr.canon(e, lb))
         k, x, i = 'L%d' % self.k, ('L%d' % self.x if self.x is not None else None), 'L%d' % self.i
         if e.get('k') == 'bin' and e.get('op') in ('!=', '=='):
-            l, r = pr.norm_obj(pr.canon(e['lhs'])), pr.norm_obj(pr.canon(e['rhs']))
+            l, r = pr.norm_obj(pr.canon(e['lhs'], lb)), pr.norm_obj(pr.canon(e['rhs'], lb))
             pair = {l, r}
             neq = e['op'] == '!='
             if k in pair and any(p.endswith('.length') for p in pair):
